@@ -5,6 +5,13 @@
 import Driver.Codec
 import SlacModel.Display
 import SlacModel.Json
+import SlacModel.Optimizer
+import SlacModel.Registry
+import SlacModel.Parser
+import SlacModel.Render
+import SlacProofs.OrderSafe
+import SlacModel.Validate
+import SlacModel.Scanner
 open Slac Codec
 
 def ordStr : Ordering → String | .lt => "-1" | .eq => "0" | .gt => "1"
@@ -94,6 +101,148 @@ partial def runEnvOps (s : StaticEnv Float) (r : List String) (acc : List String
 
 def runEnv (r : List String) : Option String := (runEnvOps StaticEnv.empty r []).map (String.intercalate " , ")
 
+/-- Bool version of `Opt.Foldable` (the property's notion of a constant-foldable node) -/
+def foldableB (env : Env Float) : Ex → Bool
+  | .unary r _ => Opt.isLit r
+  | .binary l r _ => Opt.isLit l && Opt.isLit r
+  | .array es => Opt.allLit es
+  | .ternary l _ _ op => op == .ternaryCondition && Opt.isLit l
+  | .call f ps => (f == Opt.ifThenName && ps.length == 3) || (Opt.allLit ps && env.fnExists f ps.length == .exist true)
+  | _ => false
+
+def pureEvent (env : Env Float) : Event Float → Bool
+  | .call f vs => env.fnExists f vs.length == .exist true
+  | .lookup _ => false
+
+def isOkChk : Except VErr Unit → Bool | .ok _ => true | .error _ => false
+
+def runOpt (r : List String) : Option String := do
+  let (senv, r) ← parseEnv noStdlib r
+  let (e, _) ← parseExpr r
+  let env := senv.toEnv fold
+  let (res, trace) := Opt.optimizeT env (Opt.mu e + 1) e
+  let (status, e') := match res with
+    | .ok t => ("ok", t)
+    | .err t er => ("err " ++ showErr er, t)
+    | .outOfFuel => ("outOfFuel", e)
+  let anyFold := (Opt.subterms e').any (foldableB env)
+  let idem := match Opt.optimize env (Opt.mu e' + 1) e' with
+    | .ok t => showExpr t == showExpr e'
+    | _ => false
+  pure s!"{status} {showExpr e'} ; {showTrace trace} ; pre {showRes (evalR env e)} ; post {showRes (evalR env e')} ; chk {tf (isOkChk (checkVF env e))} {tf (isOkChk (checkVF env e'))} ; fold {tf anyFold} ; idem {tf idem} ; nodes {Opt.nodes e'} {Opt.nodes e} ; if3 {tf (Opt.if3 e > 0)} ; pur {tf (trace.all (pureEvent env))}"
+
+def caseMap : Stdlib.CaseMap := ⟨Unicode.lowerStr, Unicode.upperStr⟩
+
+def runCall (r : List String) : Option String :=
+  match r with
+  | off :: name :: n :: r => do
+    let (args, _) ← parseN parseVal n.toNat! r []
+    let o : Nat := if off == "0" then 0 else 1
+    let nm := String.ofList (unhex name)
+    if (nm == "sort" || nm == "max" || nm == "min") && !Order.safeB (Stdlib.smartVec args) then pure "unmodelled unsafe-order" else
+    match Registry.builtin (N := Float) caseMap o nm with
+    | none => pure "unmodelled"
+    | some f => match f args with
+      | none => pure "unmodelled"
+      | some res => pure (showNRes res)
+  | _ => none
+
+def showCOutExpr : COut Float Ex → String
+  | .ok e => "ok " ++ showExpr e
+  | .err e => "err " ++ showCErr e
+  | .outOfFuel => "outOfFuel"
+  | .panic => "panic"
+
+def runParse (r : List String) : Option String := do
+  let ts ← parseToks r []
+  pure (showCOutExpr (Parser.parse ts))
+
+/-- `rt <style> <expr>`: render (model renderer: minimal for style 0, full otherwise), parse, compare -/
+def runRt (r : List String) : Option String :=
+  match r with
+  | style :: r => do
+    let (e, _) ← parseExpr r
+    if !Render.srcExpr e then pure "unmodelled not-source-expressible" else
+    let ts := if style == "0" then Render.renderMin e else Render.renderFull e
+    match Parser.parse ts with
+    | .ok e' => pure (if showExpr e' == showExpr e then "same" else "differs " ++ showExpr e')
+    | .err er => pure ("err " ++ showCErr er)
+    | _ => pure "outOfFuel"
+  | _ => none
+
+def showVErr : VErr → String
+  | .missingVariable n => "MissingVariable " ++ hex n
+  | .missingFunction n => "MissingFunction " ++ hex n
+  | .paramCountMismatch n a b c => s!"ParamCountMismatch {hex n} {a} {b} {c}"
+  | .invalidUnaryOperator op => "InvalidUnaryOperator " ++ opName op
+  | .invalidBinaryOperator op => "InvalidBinaryOperator " ++ opName op
+  | .invalidTernaryOperator op => "InvalidTernaryOperator " ++ opName op
+  | .literalNotBoolean => "LiteralNotBoolean"
+def showChk : Except VErr Unit → String
+  | .ok _ => "ok"
+  | .error e => "err " ++ showVErr e
+
+def runChkvf (r : List String) : Option String := do
+  let (senv, r) ← parseEnv noStdlib r
+  let (e, _) ← parseExpr r
+  let env := senv.toEnv fold
+  pure s!"{showChk (checkVF env e)} ; {showRes (evalR env e)}"
+
+def resultPosB : Ex → List Ex
+  | .ternary _ m r op => if op == .ternaryCondition then resultPosB m ++ resultPosB r else []
+  | .var n => [.var n]
+  | .call n ps => [.call n ps]
+  | _ => []
+
+def runChkbool (r : List String) : Option String := do
+  let (senv, r) ← parseEnv noStdlib r
+  let (e, _) ← parseExpr r
+  let env := senv.toEnv fold
+  let proviso := (resultPosB e).all fun x => match evalR env x with | .ok (.bool _) => true | .ok _ => false | .error _ => true
+  pure s!"{showChk (checkBool e)} ; {showRes (evalR env e)} ; rp {tf proviso}"
+
+def charClass : Scanner.CharClass := ⟨Unicode.isAlphabetic, Unicode.isNumeric, Unicode.lowerStr⟩
+
+def showCOutToks : COut Float (List (Token Float)) → String
+  | .ok ts => "ok " ++ showToks ts
+  | .err e => "err " ++ showCErr e
+  | .outOfFuel => "outOfFuel"
+  | .panic => "panic"
+
+def runScan : List String → Option String
+  | [h] => some (showCOutToks (Scanner.scan charClass (unhex h)))
+  | _ => none
+
+/-- `slac::compile` = tokenize, then compile_ast -/
+def compileModel (src : Str) : COut Float Ex :=
+  match Scanner.scan (N := Float) charClass src with
+  | .ok ts => Parser.parse ts
+  | .err e => .err e
+  | .outOfFuel => .outOfFuel
+  | .panic => .panic
+
+def runCompile : List String → Option String
+  | [h] => some (showCOutExpr (compileModel (unhex h)))
+  | _ => none
+
+def runLay : List String → Option String
+  | [a, b] =>
+    let x := showCOutToks (Scanner.scan charClass (unhex a))
+    let y := showCOutToks (Scanner.scan charClass (unhex b))
+    some (if x == y then "same" else "differs")
+  | _ => none
+
+def runRr : List String → Option String
+  | [h] =>
+    match compileModel (unhex h) with
+    | .ok e =>
+      (match Parser.parse (Render.renderMin e) with
+       | .ok e' => some (if showExpr e' == showExpr e then "same" else "differs " ++ showExpr e')
+       | .err er => some ("err " ++ showCErr er)
+       | _ => some "outOfFuel")
+    | _ => some "reject"
+  | _ => none
+
 def jnFloat : JsonNum Float := ⟨F64.isFinite, F64.ofInt⟩
 
 partial def canonJson : Json Float → String
@@ -122,6 +271,16 @@ def step (line : String) : String :=
     | "eval" :: r => runEval r
     | "env" :: r => runEnv r
     | "json" :: r => runJson r
+    | "opt" :: r => runOpt r
+    | "call" :: r => runCall r
+    | "parse" :: r => runParse r
+    | "rt" :: r => runRt r
+    | "chkvf" :: r => runChkvf r
+    | "scan" :: r => runScan r
+    | "compile" :: r => runCompile r
+    | "lay" :: r => runLay r
+    | "rr" :: r => runRr r
+    | "chkbool" :: r => runChkbool r
     | _ => none
   r.getD "bad"
 
